@@ -393,6 +393,27 @@ func (c *Ctx) mapFilteredByNameSet(fn *ssa.Function, m ssa.Value) bool {
 // known not to be a name and is deleted (empty for the maps.DeleteFunc form).
 func (c *Ctx) mapFilterRegions(fn *ssa.Function, m ssa.Value) (bool, []*ssa.BasicBlock) {
 	var regions []*ssa.BasicBlock
+	// the map may come back from a helper that filters its parameter in place and returns it
+	if ex, ok := m.(*ssa.Extract); ok {
+		if hc, ok := ex.Tuple.(*ssa.Call); ok {
+			if h := hc.Call.StaticCallee(); h != nil && c.P.InPkg(h) && len(h.Blocks) > 0 {
+				var param *ssa.Parameter
+				same := true
+				core.EachInstr(h, func(i ssa.Instruction) {
+					if ret, ok := i.(*ssa.Return); ok && ex.Index < len(ret.Results) {
+						if p, ok := ret.Results[ex.Index].(*ssa.Parameter); ok && (param == nil || param == p) {
+							param = p
+						} else {
+							same = false
+						}
+					}
+				})
+				if param != nil && same {
+					return c.mapFilterRegions(h, param)
+				}
+			}
+		}
+	}
 	sameMap := func(a, b ssa.Value) bool {
 		sa, sb := traceSources(a), traceSources(b)
 		for _, x := range sa {
@@ -505,6 +526,20 @@ func (c *Ctx) reencodedWheneverFiltered(marshal *ssa.Call, regions []*ssa.BasicB
 		}
 		evidence := false
 		for _, v := range backSlice(g.Cond, 20) {
+			// another result of the helper that did the filtering (the collection of removed keys it returns)
+			if ex, ok := v.(*ssa.Extract); ok {
+				if hc, ok := ex.Tuple.(*ssa.Call); ok && hc.Call.StaticCallee() != nil && hc.Call.StaticCallee() == regions[0].Parent() && regions[0].Parent() != marshal.Parent() {
+					filtered := false
+					for _, a := range marshal.Call.Args {
+						if peelIface(a) == ssa.Value(ex) {
+							filtered = true
+						}
+					}
+					if !filtered {
+						evidence = true
+					}
+				}
+			}
 			if ins, ok := v.(ssa.Instruction); ok && inRegion(ins.Block()) {
 				evidence = true
 			}
